@@ -1,7 +1,7 @@
 (* Properties/C08.v — pinned statements only.  What is proved is the stack-depth argument of C08; the rest of
    the property (no panic inside combinators, spans, diagnostics, running time) is exploration, see notes/C08.md. *)
 From Boreal Require Import Base.Prelude Base.ConstsParser Model.CallGraphCheck Model.CallGraph
-     Proofs.CallGraphProofs Proofs.CallGraphInst Proofs.CallGraphAst.
+     Proofs.CallGraphProofs Proofs.CallGraphFlow Proofs.CallGraphInst Proofs.CallGraphAst.
 
 (* The verified checker, for every graph: if the call graph without its guarded functions is acyclic (rank
    certificate) then every call chain that respects the guards (at most limit+1 active functions per counter
@@ -24,6 +24,56 @@ Theorem C08_depth_bounded :
     (length chain <= depth_bound CallGraph.graph le ls lc li)%nat.
 Proof. exact graph_depth_bounded. Qed.
 
+(* The same bound without a per-class hypothesis on the chain: all that is said of a chain is that guards act as
+   guards — a guarded function that finds `counter >= limit` calls nothing — the counter on entry being the number
+   of guarded functions of the class below on the stack (which is what the next three theorems establish function
+   by function). *)
+Theorem C08_depth_bounded_exec :
+  forall le ls lc li chain,
+    is_path CallGraph.graph chain = true -> guards_pass CallGraph.graph (lim4 le ls lc li) [] chain ->
+    (length chain <= depth_bound CallGraph.graph le ls lc li)%nat.
+Proof. exact graph_depth_bounded_exec. Qed.
+
+(* C08_counter_balanced, no longer an assumption: for every counter-guarded function of this tree
+   (boolean_expression, primary_expression, hex tokens, regex alternative, compile_expression), on every path of
+   its control-flow graph as extracted on this run, for every value c of the counter on entry, an Ok exit hands
+   back a carrier whose counter is c ... *)
+Theorem C08_counter_balanced :
+  forall p, In p (cg_progs CallGraph.graph) ->
+  forall c k e n v, reach p c k e -> nth_error (gp_nodes p) k = Some n -> gn_instr n = IRetOk v ->
+    elook e v = Some c.
+Proof. exact graph_counter_balanced. Qed.
+
+(* ... the counter of a carrier never goes below c ... *)
+Theorem C08_counter_never_below :
+  forall p, In p (cg_progs CallGraph.graph) ->
+  forall c k e n v d, reach p c k e -> nth_error (gp_nodes p) k = Some n -> elook (gn_cert n) v = Some d ->
+    exists m, elook e v = Some m /\ (c <= m)%nat.
+Proof. exact graph_counter_never_below. Qed.
+
+(* ... every call site hands its callees at least c + call_delta, and the call sites where call_delta = 0 (counter
+   not yet incremented, or already restored) are edges of the function's UNGUARDED copy in the graph the depth
+   theorem is about (so a restore placed before a later recursive call is a guard-free cycle). *)
+Theorem C08_call_sites :
+  forall p, In p (cg_progs CallGraph.graph) ->
+  forall c k e n cs srcs s d, reach p c k e -> nth_error (gp_nodes p) k = Some n -> gn_instr n = ICall cs srcs ->
+    In s srcs -> elook (gn_cert n) s = Some d ->
+    exists m, elook e s = Some m /\ (c + call_delta (gn_cert n) srcs <= m)%nat.
+Proof. exact graph_call_counter. Qed.
+
+Theorem C08_uncovered_calls_are_unguarded :
+  forall p n cs srcs callee, In p (cg_progs CallGraph.graph) -> In n (gp_nodes p) -> gn_instr n = ICall cs srcs ->
+    In callee cs ->
+    if Nat.leb 1 (call_delta (gn_cert n) srcs) then is_edge CallGraph.graph (gp_fn p) callee = true
+    else exists f', gp_copy p = Some f' /\ guarded CallGraph.graph f' = false /\ is_edge CallGraph.graph f' callee = true.
+Proof. exact graph_uncovered_in_copy. Qed.
+
+(* the soundness lemma of the `balanced` part of the checker, for any function graph *)
+Theorem C08_balanced_sound :
+  forall p, check_prog p = true ->
+  forall c k e, reach p c k e -> exists n, nth_error (gp_nodes p) k = Some n /\ agrees c (gn_cert n) e.
+Proof. exact cert_sound. Qed.
+
 Theorem C08_guard_classes : map snd (cg_guards CallGraph.graph) = [0; 0; 1; 1; 2; 3].
 Proof. exact graph_guard_classes. Qed.
 
@@ -45,6 +95,40 @@ Example C08_example_chain :
    && Nat.eqb (guard_count CallGraph.graph chain) 1) = true.
 Proof. vm_compute. reflexivity. Qed.
 
+(* non-vacuity of the balance theorems: five functions have a flow, each has an Ok exit and a call site that
+   runs with the increment in force, and the checker rejects a function that restores too early *)
+Example C08_example_flows :
+  (Nat.eqb (length (cg_progs CallGraph.graph)) 5
+   && forallb (fun p => existsb (fun n => match gn_instr n with IRetOk _ => true | _ => false end) (gp_nodes p)
+                        && existsb (fun n => match gn_instr n with
+                                             | ICall _ srcs => Nat.leb 1 (call_delta (gn_cert n) srcs)
+                                             | _ => false end) (gp_nodes p))
+              (cg_progs CallGraph.graph)) = true.
+Proof. vm_compute. reflexivity. Qed.
+
+(* f: inc; call f; dec; ret_ok — accepted.  Same with the `dec` before the call: the flow is still balanced but
+   the call is made with the counter restored, there is no unguarded copy to hold it: rejected. *)
+Example C08_example_balance_checker :
+  (guards_cut_all_cycles
+     {| cg_adj := [(0, [0])]; cg_guards := [(0, 0)];
+        cg_progs := [ {| gp_fn := 0; gp_copy := None; gp_params := [0%nat];
+                         gp_nodes := [ {| gn_instr := IInc 0; gn_succs := [1%nat]; gn_cert := [(0, 0)]%nat |};
+                                       {| gn_instr := ICall [0] [0%nat]; gn_succs := [2%nat]; gn_cert := [(0, 1)]%nat |};
+                                       {| gn_instr := IDec 0; gn_succs := [3%nat]; gn_cert := [(0, 1)]%nat |};
+                                       {| gn_instr := IRetOk 0; gn_succs := []; gn_cert := [(0, 0)]%nat |} ] |} ] |}
+   && negb (guards_cut_all_cycles
+     {| cg_adj := [(0, [0])]; cg_guards := [(0, 0)];
+        cg_progs := [ {| gp_fn := 0; gp_copy := None; gp_params := [0%nat];
+                         gp_nodes := [ {| gn_instr := IInc 0; gn_succs := [1%nat]; gn_cert := [(0, 0)]%nat |};
+                                       {| gn_instr := IDec 0; gn_succs := [2%nat]; gn_cert := [(0, 1)]%nat |};
+                                       {| gn_instr := ICall [0] [0%nat]; gn_succs := [3%nat]; gn_cert := [(0, 0)]%nat |};
+                                       {| gn_instr := IRetOk 0; gn_succs := []; gn_cert := [(0, 0)]%nat |} ] |} ] |})
+   (* an Ok exit that forgets the decrement is not balanced *)
+   && negb (check_prog {| gp_fn := 0; gp_copy := None; gp_params := [0%nat];
+                          gp_nodes := [ {| gn_instr := IInc 0; gn_succs := [1%nat]; gn_cert := [(0, 0)]%nat |};
+                                        {| gn_instr := IRetOk 0; gn_succs := []; gn_cert := [(0, 1)]%nat |} ] |})) = true.
+Proof. vm_compute. reflexivity. Qed.
+
 (* the bound with the default limits of this tree (50 / 30 / 40 / 16) *)
 Example C08_default_bound : Nat.leb default_bound 4000 = true.
 Proof. vm_compute. reflexivity. Qed.
@@ -53,4 +137,10 @@ Print Assumptions C08_checker_sound.
 Print Assumptions C08_guards_cut_all_cycles.
 Print Assumptions C08_depth_bounded.
 Print Assumptions C08_guard_classes.
+Print Assumptions C08_depth_bounded_exec.
+Print Assumptions C08_counter_balanced.
+Print Assumptions C08_counter_never_below.
+Print Assumptions C08_call_sites.
+Print Assumptions C08_uncovered_calls_are_unguarded.
+Print Assumptions C08_balanced_sound.
 Print Assumptions C08_ast_depth_unguarded_refuted.
